@@ -735,7 +735,7 @@ def _minor_isolation_case(res, case):
         aldy.minor.solve_minor_model = orig
     def documented_behaviour(arr, target):
         """What the shared evidence filter of one call means for one candidate: variants / candidate minors
-        pooled over the call's candidates, thresholds from the structure of the call's *last* candidate."""
+        pooled over the call's candidates (thresholds from the candidate's own structure)."""
         from aldy.coverage import Coverage
         from aldy.gene import Mutation
         from aldy.solutions import SolvedAllele
@@ -750,7 +750,7 @@ def _minor_isolation_case(res, case):
                     muts |= set(mi.neutral_muts)
             muts |= set(ms.added)
         muts |= g.random_mutations
-        last_cn = sols_[-1].cn_solution
+        own_cn = target.cn_solution  # (thresholds from the candidate's own structure since fix 6b29664)
 
         def flt(cov, mut):
             r = g.region_at(mut.pos)
@@ -759,7 +759,7 @@ def _minor_isolation_case(res, case):
                 return False
             cond = cov.basic_filter(mut, cn=prof.cn_max)
             if mut.op != "_":
-                cond = cond and cov.basic_filter(mut, cn=last_cn.position_cn(mut.pos) + 0.5)
+                cond = cond and cov.basic_filter(mut, cn=own_cn.position_cn(mut.pos) + 0.5)
             return cond
 
         # on evidence loaded afresh: nothing an earlier call may have left on the shared sample takes part
